@@ -12,6 +12,12 @@
 -/
 namespace ElaVerif.Caches
 
+/-- delete a key from a map (association list) -/
+def dropKey {κ α : Type} [BEq κ] (l : List (κ × α)) (k : κ) : List (κ × α) := l.filter (fun p => p.1 != k)
+
+/-- map assignment -/
+def setKey {κ α : Type} [BEq κ] (l : List (κ × α)) (k : κ) (v : α) : List (κ × α) := (k, v) :: dropKey l k
+
 /-! ## A. UTXOCache -/
 
 /-- an input: referenced tx, output index, sequence (the Go map key is the whole `Input`) -/
@@ -33,15 +39,17 @@ deriving Repr
 
 def Utxo.empty (max : Nat) : Utxo := ⟨[], [], [], max⟩
 
+/-- remove the front of the FIFO together with its map entry -/
+def evictFront (s : Utxo) : Utxo :=
+  match s.inputs with
+  | [] => s
+  | e :: rest => { s with inputs := rest, ref := dropKey s.ref e }
+
 /-- `InsertReference`: the eviction loop removes exactly the front element (after
     `Inputs.Remove(e)`, `e.Next()` is nil), when the list is at or over the limit. -/
 def insertReference (s : Utxo) (k : In) (v : Nat) : Utxo :=
-  let s := if s.inputs.length ≥ s.max then
-      match s.inputs with
-      | [] => s
-      | e :: rest => { s with inputs := rest, ref := s.ref.filter (fun p => p.1 ≠ e) }
-    else s
-  { s with inputs := s.inputs ++ [k], ref := (k, v) :: s.ref.filter (fun p => p.1 ≠ k) }
+  let s1 := if s.inputs.length ≥ s.max then evictFront s else s
+  { s1 with inputs := s1.inputs ++ [k], ref := setKey s1.ref k v }
 
 /-- delete arbitrary keys until at most `n` entries are left: the next victim is the head of
     `victims` if it is a key of the map, else the first key (Go picks by map iteration). -/
@@ -55,12 +63,12 @@ def evictTo {α : Type} (n : Nat) : Nat → List Nat → List (Nat × α) → Li
       let v := match vs with
         | v :: _ => if (l.lookup v).isSome then v else k0
         | [] => k0
-      evictTo n fuel vs.tail (l.filter (fun p => p.1 ≠ v))
+      evictTo n fuel vs.tail (dropKey l v)
 
 /-- `insertTransaction`: while over the limit delete arbitrary keys, then store. -/
 def insertTransaction (s : Utxo) (victims : List Nat) (id : Nat) (tx : List Nat) : Utxo :=
   let txc := evictTo s.max s.txc.length victims s.txc
-  { s with txc := (id, tx) :: txc.filter (fun p => p.1 ≠ id) }
+  { s with txc := setKey txc id tx }
 
 /-- `getTransaction` -/
 def getTransaction (db : TxDb) (s : Utxo) (victims : List Nat) (id : Nat) : Option (List Nat) × Utxo :=
@@ -120,9 +128,9 @@ deriving Repr
 
 /-- `setTxn` (`cacheable` = not MemoryFirst and at most 100 inputs) -/
 def Idx.set (s : Idx) (cacheable : Bool) (h height tx : Nat) : Idx :=
-  if cacheable then { s with txns := (h, (height, tx)) :: s.txns.filter (fun p => p.1 ≠ h) } else s
+  if cacheable then { s with txns := setKey s.txns h (height, tx) } else s
 
-def Idx.delete (s : Idx) (h : Nat) : Idx := { s with txns := s.txns.filter (fun p => p.1 ≠ h) }
+def Idx.delete (s : Idx) (h : Nat) : Idx := { s with txns := dropKey s.txns h }
 
 /-- `trim`: over `volume + interval` entries ⇒ delete arbitrary entries until `volume - 1`
     are left (the Go loop deletes `len - volume + 1`). -/
@@ -139,7 +147,7 @@ def Idx.fetch (db : IdxDb) (s : Idx) (h : Nat) : Option (Nat × Nat) :=
 
 /-- one transaction of a connected block: into the index, and into the cache if cacheable -/
 def Idx.connectTx (height : Nat) (st : IdxDb × Idx) (t : Nat × Nat × Bool) : IdxDb × Idx :=
-  ((t.1, (height, t.2.1)) :: st.1.filter (fun p => p.1 ≠ t.1), st.2.set t.2.2 t.1 height t.2.1)
+  (setKey st.1 t.1 (height, t.2.1), st.2.set t.2.2 t.1 height t.2.1)
 
 /-- `ConnectBlock`: trim, cache every tx of the block, drop the fully spent ones; the index gets the
     block's transactions. -/
@@ -150,7 +158,7 @@ def Idx.connect (db : IdxDb) (s : Idx) (victims : List Nat) (height : Nat)
 
 /-- `DisconnectBlock`: the block's transactions leave the cache and the index -/
 def Idx.disconnect (db : IdxDb) (s : Idx) (hashes : List Nat) : IdxDb × Idx :=
-  (db.filter (fun p => !hashes.contains p.1), hashes.foldl Idx.delete s)
+  (hashes.foldl dropKey db, hashes.foldl Idx.delete s)
 
 /-! ## C. decoded block cache -/
 
@@ -163,6 +171,16 @@ deriving Repr
 
 def cacheSize := 2
 
+/-- make room: with `BlocksCacheSize` hashes queued, drop the oldest and its map entry
+    (`blockHashesCache[1:BlocksCacheSize]`) -/
+def BlockCache.evict (s : BlockCache) : BlockCache :=
+  if s.fifo.length ≥ cacheSize then
+    { fifo := (s.fifo.drop 1).take (cacheSize - 1),
+      map := match s.fifo.head? with
+        | some old => dropKey s.map old
+        | none => s.map }
+  else s
+
 /-- `GetBlock` -/
 def getBlock (db : BlockDb) (s : BlockCache) (h : Nat) : Option Nat × BlockCache :=
   match s.map.lookup h with
@@ -170,14 +188,7 @@ def getBlock (db : BlockDb) (s : BlockCache) (h : Nat) : Option Nat × BlockCach
   | none =>
     match db.lookup h with
     | none => (none, s)
-    | some b =>
-      let s := if s.fifo.length ≥ cacheSize then
-          { fifo := (s.fifo.drop 1).take (cacheSize - 1),
-            map := match s.fifo.head? with
-              | some old => s.map.filter (fun p => p.1 ≠ old)
-              | none => s.map }
-        else s
-      (some b, { fifo := s.fifo ++ [h], map := (h, b) :: s.map.filter (fun p => p.1 ≠ h) })
+    | some b => (some b, { fifo := s.evict.fifo ++ [h], map := setKey s.evict.map h b })
 
 /-- `dbStoreBlock`: write once -/
 def storeBlock (db : BlockDb) (h b : Nat) : BlockDb :=
@@ -208,8 +219,8 @@ def writeBlock (s : SendCache) (h : Nat) (c : Bool) (bytes : Nat) : Nat × SendC
     let s := if s.hashes.length ≥ cacheSize then
         match s.hashes.head?, s.confirms.head? with
         | some oh, some oc =>
-          let inner := ((s.outer.lookup oh).getD []).filter (fun p => p.1 ≠ oc)
-          let outer := s.outer.filter (fun p => p.1 ≠ oh)
+          let inner := dropKey ((s.outer.lookup oh).getD []) oc
+          let outer := dropKey s.outer oh
           { hashes := (s.hashes.drop 1).take (cacheSize - 1),
             confirms := (s.confirms.drop 1).take (cacheSize - 1),
             outer := if inner.isEmpty then outer else (oh, inner) :: outer }
